@@ -112,7 +112,7 @@ class Hist:
             n, a = st["root"]
             aval = a if isinstance(a, int) else [Raw("file"), a[1], a[2]]
             steps.append([Raw("step"), [Raw("code")] + code, [Raw("fs")] + fs, [Raw("root"), n, aval]])
-        return ("hist " + sx([Raw("V"), bool(flags["simpleExprValid"]), bool(flags["cseSubtreeFromDb"])]) + " " +
+        return ("hist " + sx([Raw("V"), bool(flags["simpleExprValid"]), bool(flags["cseSubtreeFromDb"]), bool(flags.get("noCatchCache", False))]) + " " +
                 sx([Raw("tbl")] + self.table()) + " " + sx([Raw("steps")] + steps))
 
     def to_json(self):
@@ -450,47 +450,60 @@ def run_step(rh, st, flags_unused=None):
     return out, log, fresh
 
 
-def run_history(ctx, env, hist, flags, label, reply=None):
-    """Runs one history on the real code and on the model; reports mismatches / violations.  Returns list of per-step dicts."""
+VARIANTS = ["asfound", "noCatchCache", "simpleExprValid", "cseSubtreeFromDb"]
+
+
+def requests(hist, flags):
+    """model requests for one history: the tree's variant, then the tree's variant with one defect repaired at a time"""
+    out = [hist.request(flags)]
+    for f in VARIANTS[1:]:
+        out.append(hist.request(dict(flags, **{f: True})))
+    return out
+
+
+def parse_reply(reply):
+    out = []
+    for x in reply.split(" ; "):
+        mo, _, mlog = x.partition("|")
+        out.append((mo.strip(), mlog.strip()))
+    return out
+
+
+def run_history(ctx, env, hist, flags, label, replies=None):
+    """Runs one history on the real code and on the model.  Returns list of per-step dicts."""
     rh = RealHist(env, hist)
-    if reply is None:
-        reply = ctx.model("C02", [hist.request(flags)])[0]
-    msteps = [x.strip() for x in reply.split(" ; ")]
+    if replies is None:
+        replies = ctx.model("C02", requests(hist, flags))
+    ms = [parse_reply(r) for r in replies]
     rows = []
     for k, st in enumerate(hist.steps):
         out, log, fresh = run_step(rh, st)
-        m = msteps[k] if k < len(msteps) else "<none>"
-        mo, _, mlog = m.partition("|")
-        rows.append(dict(step=k, edits=st.get("edits", []), real=out, log=log, fresh=fresh, model=mo.strip(), model_log=mlog.strip()))
+        row = dict(step=k, edits=st.get("edits", []), real=out, log=log, fresh=fresh)
+        for name, m in zip(VARIANTS, ms):
+            mo, mlog = m[k] if k < len(m) else ("<none>", "")
+            row["model" if name == "asfound" else "model+" + name] = mo
+            if name == "asfound":
+                row["model_log"] = mlog
+        rows.append(row)
     shutil.rmtree(rh.dir, ignore_errors=True)
     return rows
 
 
-def classify(hist, k):
-    """structural signature of a stale result at step k (for the known-findings table)"""
-    def has(kind, t):
-        return t[0] == kind or any(has(kind, x) for x in t[1:] if isinstance(x, tuple))
-    st = hist.steps[k]
-    specs = [hist.versions[i][v] for i, (v, _) in st["code"].items()]
-    any_catch = any(s[0] == "ret" and has("catch", s[1]) for vs in hist.versions for s in vs)
-    if any_catch:
-        return SIG_CATCH
-    any_shallow = any(sh for s in hist.steps for (_, sh) in s["code"].values())
-    if any_shallow:
-        return SIG_CSE
-    def file_under_add(t, under=False):
-        if t[0] == "file":
-            return under
-        if t[0] == "add":
-            return any(file_under_add(x, True) for x in t[1:])
-        return any(file_under_add(x, under) for x in t[1:] if isinstance(x, tuple))
-    if any(s[0] == "ret" and file_under_add(s[1]) for vs in hist.versions for s in vs):
-        return SIG_SIMPLE
+SIGS = {"noCatchCache": SIG_CATCH, "simpleExprValid": SIG_SIMPLE, "cseSubtreeFromDb": SIG_CSE}
+
+
+def classify(row):
+    """Structural signature of a stale result: which single defect of the tree explains it - the model of the tree
+    predicts the stale outcome and the model with that one defect repaired predicts the fresh outcome."""
+    if row["model"] == row["real"]:
+        for f in VARIANTS[1:]:
+            if row["model+" + f] == row["fresh"]:
+                return SIGS[f]
     return "C02-stale-result"
 
 
-def check_history(ctx, env, hist, flags, label, tags, reply=None):
-    rows = run_history(ctx, env, hist, flags, label, reply)
+def check_history(ctx, env, hist, flags, label, tags, replies=None):
+    rows = run_history(ctx, env, hist, flags, label, replies)
     case = dict(label=label, history=hist.to_json(), flags=flags)
     nhit = sum(1 for r in rows if r["log"].count("(") < r["model_log"].count("(") + 10**9 and r["log"] == "")
     ctx.case(key=json.dumps(hist.to_json(), sort_keys=True), sample=dict(label=label, steps=[dict(edits=r["edits"], real=r["real"], called=r["log"]) for r in rows][:4]),
@@ -501,7 +514,7 @@ def check_history(ctx, env, hist, flags, label, tags, reply=None):
         for e in r["edits"]:
             ctx.count("edit", e[0])
         if r["real"] != r["fresh"]:
-            ctx.violation(classify(hist, r["step"]),
+            ctx.violation(classify(r),
                           "execution %d of the history returns %s on the shared backend, %s on a fresh backend" % (r["step"], r["real"], r["fresh"]),
                           case=dict(case, step=r["step"]), expected=r["fresh"], actual=r["real"], kind="history")
         if r["model"] != r["real"]:
@@ -573,11 +586,11 @@ def corpus():
 
 def probe_flags(ctx, env):
     """Which of the two repairable defects does this tree have?  (the model mirrors the tree it is compared with)"""
-    flags = dict(simpleExprValid=True, cseSubtreeFromDb=True)
+    flags = dict(simpleExprValid=True, cseSubtreeFromDb=True, noCatchCache=False)
     cs = corpus()
-    rows = run_history(ctx, env, cs["file-under-lazy-add"], flags, "probe", reply="")
+    rows = run_history(ctx, env, cs["file-under-lazy-add"], flags, "probe", replies=[""] * 4)
     flags["simpleExprValid"] = rows[1]["real"] == rows[1]["fresh"]
-    rows = run_history(ctx, env, cs["shallow-over-cse-twin"], flags, "probe", reply="")
+    rows = run_history(ctx, env, cs["shallow-over-cse-twin"], flags, "probe", replies=[""] * 4)
     flags["cseSubtreeFromDb"] = rows[1]["real"] == rows[1]["fresh"]
     return flags
 
@@ -597,10 +610,10 @@ def run(ctx):
             allow_catch = rng.random() < 0.25
             h = gen_history(rng, rng.randrange(2, nsteps_max + 1), allow_catch)
             cases.append(("gen%d" % idx, h, dict(source="generated", catch=allow_catch)))
-        replies = ctx.model("C02", [h.request(flags) for _, h, _ in cases])
+        replies = ctx.model("C02", [q for _, h, _ in cases for q in requests(h, flags)])
         budget = 60 if ctx.tier == "quick" else 520
-        for k, ((label, h, tags), reply) in enumerate(zip(cases, replies)):
-            check_history(ctx, env, h, flags, label, tags, reply)
+        for k, (label, h, tags) in enumerate(cases):
+            check_history(ctx, env, h, flags, label, tags, replies[4 * k: 4 * k + 4])
             if ctx.elapsed() > budget:
                 ctx.note("stopped after %d of %d histories (time budget)" % (k + 1, len(cases)))
                 break
